@@ -20,7 +20,7 @@ Definition is_float_ty (o : option ty) : bool :=
 Fixpoint has_floats (e : expr) : bool :=
   match e with
   | EIdent _ _ | ELit _ _ _ | EVarK _ _ _ | ESel _ _ _ _ | EConst _ _ => false
-  | EParen x | EUnary _ x | ESliceAll x => has_floats x
+  | EParen x | EUnary _ x | ESliceAll x | EDeref x => has_floats x
   | EBinary _ l r => is_float_ty (typeof l) || is_float_ty (typeof r) || has_floats l || has_floats r
   | ECall _ args => (fix go (l : list expr) : bool := match l with [] => false | x :: r => has_floats x || go r end) args
   | EIndex a i => has_floats a || has_floats i
@@ -217,6 +217,7 @@ Fixpoint simp_v (hf : bool) (e : expr) {struct e} : expr :=
     | ECall f args => ECall f (map (simp_v hf) args)
     | EIndex a i => EIndex (simp_v hf a) (simp_v hf i)
     | ESliceAll a => ESliceAll (simp_v hf a)
+    | EDeref a => EDeref (simp_v hf a)
     end.
 
 
@@ -230,6 +231,7 @@ Definition rebuild_v (hf : bool) (e : expr) : expr :=
   | ECall f args => ECall f (map (simp_v hf) args)
   | EIndex a i => EIndex (simp_v hf a) (simp_v hf i)
   | ESliceAll a => ESliceAll (simp_v hf a)
+  | EDeref a => EDeref (simp_v hf a)
   end.
 
 (* [g] holds of every node as the post function sees it *)
@@ -237,7 +239,7 @@ Fixpoint all_nodes_v (g : expr -> bool) (hf : bool) (e : expr) {struct e} : bool
   g (rebuild_v hf e) &&
   match e with
   | EIdent _ _ | ELit _ _ _ | EVarK _ _ _ | ESel _ _ _ _ | EConst _ _ => true
-  | EParen x | EUnary _ x | ESliceAll x => all_nodes_v g hf x
+  | EParen x | EUnary _ x | ESliceAll x | EDeref x => all_nodes_v g hf x
   | EBinary _ l r => all_nodes_v g hf l && all_nodes_v g hf r
   | ECall _ args => (fix go (l : list expr) : bool := match l with [] => true | x :: r => all_nodes_v g hf x && go r end) args
   | EIndex a i => all_nodes_v g hf a && all_nodes_v g hf i
@@ -355,6 +357,7 @@ Fixpoint print1 (e : expr) (prec1 depth : nat) {struct e} : string :=
   | EVarK x _ _ => x
   | ESel x f _ _ => x ++ "." ++ f
   | EConst x _ => x
+  | EDeref a => if Nat.ltb 6 prec1 then "(*" ++ print1 a 6 1 ++ ")" else "*" ++ print1 a 6 depth
   end.
 
 Definition print_expr (e : expr) : string := print1 e 0 1.
@@ -395,7 +398,7 @@ Fixpoint walk_exprs_from (pc : bool) (e : expr) {struct e} : list string :=
       | EIdent _ _ | ELit _ _ _ | EVarK _ _ _ | ESel _ _ _ _ | EConst _ _ => []
       | EParen x => walk_exprs_from pc x     (* the context's type is propagated through parentheses *)
       | EUnary _ x => walk_exprs_from (is_const_expr e) x
-      | ESliceAll x => walk_exprs_from false x
+      | ESliceAll x | EDeref x => walk_exprs_from false x
       | EBinary _ l r => (walk_exprs_from (is_const_expr e) l ++ walk_exprs_from (is_const_expr e) r)%list
       | ECall _ args => flat_map (walk_exprs_from false) args
       | EIndex a i => (walk_exprs_from false a ++ walk_exprs_from false i)%list
